@@ -274,4 +274,158 @@ theorem henselRshDiv_exact (x n d m s T : ℕ) (hx : x < B ^ n) (hd : d < B) (hd
   have := Nat.ModEq.eq_of_lt_of_lt hQT h1 hTlt
   exact this
 
+/-! ## log_n_max, the accumulation loop of mpz_smallk_bin_uiui -/
+
+theorem logNMaxAux_spec (n : ℕ) (hn : n ≤ limbrootsTable.getD 0 0) :
+    ∀ L, 1 ≤ L → 1 ≤ logNMaxAux L n ∧ logNMaxAux L n ≤ L ∧ n ≤ limbrootsTable.getD (logNMaxAux L n - 1) 0 := by
+  intro L
+  induction L with
+  | zero => intro h; omega
+  | succ L ih =>
+    intro _
+    unfold logNMaxAux
+    split
+    · rename_i hgt
+      have hL : 1 ≤ L := by
+        rcases Nat.eq_zero_or_pos L with h | h
+        · subst h; omega
+        · exact h
+      obtain ⟨a, b, c⟩ := ih hL
+      exact ⟨a, by omega, c⟩
+    · rename_i hle
+      exact ⟨by omega, le_refl _, by simpa using Nat.le_of_not_gt hle⟩
+
+theorem limbroots_pow : ∀ i < 8, limbrootsTable.getD i 0 ^ (i + 1) < B := by decide +kernel
+
+/-- `MAXFACS (nmax, n)` = log_n_max (n): 1 ≤ nmax ≤ 8 and n^nmax fits a limb -/
+theorem log_n_max_spec (n : ℕ) (hn : n < B) :
+    1 ≤ log_n_max n ∧ log_n_max n ≤ 8 ∧ n ^ log_n_max n < B := by
+  have h0 : n ≤ limbrootsTable.getD 0 0 := by
+    have : limbrootsTable.getD 0 0 = B - 1 := by decide +kernel
+    omega
+  obtain ⟨a, b, c⟩ := logNMaxAux_spec n h0 8 (by omega)
+  refine ⟨a, b, ?_⟩
+  unfold log_n_max
+  generalize logNMaxAux 8 n = r at a b c
+  have := limbroots_pow (r - 1) (by omega)
+  rw [Nat.sub_add_cancel a] at this
+  exact lt_of_le_of_lt (Nat.pow_le_pow_left c r) this
+
+theorem pow_fit_le {n w W : ℕ} (h : n ^ W < B) (hw : w ≤ W) : n ^ w < B := by
+  rcases Nat.eq_zero_or_pos n with h0 | h0
+  · subst h0
+    rcases Nat.eq_zero_or_pos w with hw0 | hw0
+    · subst hw0; simp [B_eq]
+    · rw [Nat.zero_pow hw0]; exact B_pos
+  · exact lt_of_le_of_lt (Nat.pow_le_pow_right h0 hw) h
+
+theorem smallkLoop_spec (n k W : ℕ) (hk : k ≤ n) (hW8 : W ≤ 8) (hW : n ^ W < B) :
+    ∀ fuel nmax numfac i rp i2, numfac ≤ fuel → nmax ≤ W → (numfac ≠ 0 → 1 ≤ nmax) → (numfac ≠ 0 → i + numfac = n + 1) →
+      numfac ≤ k → rp * 2 ^ i2 = (n - k + 1).ascFactorial (k - numfac) →
+      (smallkLoop fuel nmax numfac i rp i2).1 * 2 ^ (smallkLoop fuel nmax numfac i rp i2).2 = (n - k + 1).ascFactorial k := by
+  intro fuel
+  induction fuel with
+  | zero =>
+    intro nmax numfac i rp i2 h1 _ _ _ _ hinv
+    have : numfac = 0 := by omega
+    subst this
+    simpa [smallkLoop] using hinv
+  | succ fuel ih =>
+    intro nmax numfac i rp i2 h1 h2 h3 h4 h5 hinv
+    unfold smallkLoop
+    by_cases h0 : numfac = 0
+    · subst h0; simpa using hinv
+    · simp only [h0, if_false]
+      have hn1 := h3 h0
+      have hi := h4 h0
+      have hmin1 : 1 ≤ min nmax numfac := by simp only [Nat.le_min]; omega
+      have hminW : min nmax numfac ≤ W := le_trans (Nat.min_le_left _ _) h2
+      have hminF : min nmax numfac ≤ numfac := Nat.min_le_right _ _
+      generalize min nmax numfac = w at hmin1 hminW hminF ⊢
+      have hfit : (i + w - 1) ^ w < B := by
+        have : i + w - 1 ≤ n := by omega
+        exact lt_of_le_of_lt (Nat.pow_le_pow_left this w) (pow_fit_le hW hminW)
+      have hm := mulfunc_spec w i hmin1 (by omega) hfit
+      apply ih w (numfac - w) ((i + w) % B) (rp * mulfunc w i) (i2 + tcnt (w - 1)) (by omega) hminW (fun _ => hmin1)
+      · intro hne
+        have hB : n < B := by
+          have := pow_fit_le hW (show 1 ≤ W by omega)
+          simpa using this
+        rw [Nat.mod_eq_of_lt (by omega)]; omega
+      · omega
+      · rw [pow_add, show rp * mulfunc w i * (2 ^ i2 * 2 ^ tcnt (w - 1)) = rp * 2 ^ i2 * (mulfunc w i * 2 ^ tcnt (w - 1)) by ring,
+          hinv, hm, show i = n - k + 1 + (k - numfac) by omega, Nat.ascFactorial_mul_ascFactorial]
+        congr 1; omega
+
+theorem lt_pow_limbCount (v : ℕ) : v < B ^ (if limbCount v = 0 then 1 else limbCount v) := by
+  unfold limbCount
+  by_cases hv : v = 0
+  · subst hv; simp [B_eq]
+  · simp only [hv, if_false, Nat.add_eq_zero_iff, Nat.one_ne_zero, and_false]
+    have h1 : v < 2 ^ (v.log2 + 1) := Nat.lt_log2_self
+    have h2 : v.log2 + 1 ≤ 64 * (v.log2 / 64 + 1) := by omega
+    have h3 : B ^ (v.log2 / 64 + 1) = 2 ^ (64 * (v.log2 / 64 + 1)) := by
+      rw [show B = 2 ^ 64 by rw [B_eq]; norm_num, ← pow_mul]
+    rw [h3]
+    exact lt_of_lt_of_le h1 (Nat.pow_le_pow_right (by decide) h2)
+
+theorem smallkLoop_i2_indep : ∀ fuel nmax numfac i rp i2,
+    (smallkLoop fuel nmax numfac i rp i2).2 = (smallkLoop fuel nmax numfac 0 0 i2).2 := by
+  intro fuel
+  induction fuel with
+  | zero => intros; rfl
+  | succ fuel ih =>
+    intro nmax numfac i rp i2
+    unfold smallkLoop
+    by_cases h0 : numfac = 0
+    · simp [h0]
+    · simp only [h0, if_false]
+      rw [ih, ih _ _ ((0 + min nmax numfac) % B) (0 * mulfunc (min nmax numfac) 0)]
+
+/-- the twos removed on the fly by mul1…mul8 never exceed the twos of k! (every chunk size, every 2 ≤ k ≤ 25) -/
+theorem smallk_i2_le : ∀ nm < 9, 1 ≤ nm → ∀ k < ODD_FACTORIAL_TABLE_LIMIT + 1, 2 ≤ k →
+    (smallkLoop k (min nm k) (k - min nm k) 0 0 (tcnt (min nm k - 1))).2 ≤ fac2cntTab (k / 2 - 1) := by
+  decide +kernel
+
+theorem smallk_tables : ∀ k < ODD_FACTORIAL_TABLE_LIMIT + 1, 2 ≤ k →
+    k ! = 2 ^ fac2cntTab (k / 2 - 1) * oddfacTab k ∧ oddfacTab k < B ∧ oddfacTab k * facinvTab (k - 2) % B = 1 := by
+  decide +kernel
+
+theorem shiftRight_of_mul_two_pow {r a b c : ℕ} (h : r * 2 ^ a = 2 ^ b * c) (hab : a ≤ b) : r >>> (b - a) = c := by
+  have hb : b = a + (b - a) := by omega
+  rw [hb, pow_add] at h
+  have h2 : r = 2 ^ (b - a) * c := by
+    have : r * 2 ^ a = 2 ^ (b - a) * c * 2 ^ a := by rw [h]; ring
+    exact Nat.eq_of_mul_eq_mul_right (by positivity) this
+  rw [Nat.shiftRight_eq_div_pow, h2, Nat.mul_div_cancel_left _ (by positivity)]
+
+/-- **mpz_smallk_bin_uiui (n, k) = binomial (n, k)** for 2 ≤ k ≤ ODD_FACTORIAL_TABLE_LIMIT, k ≤ n < 2^64 -/
+theorem smallk_bin_uiui_eq (n k : ℕ) (hk2 : 2 ≤ k) (hk25 : k ≤ ODD_FACTORIAL_TABLE_LIMIT) (hkn : k ≤ n) (hn : n < B) :
+    smallk_bin_uiui n k = n.choose k := by
+  obtain ⟨hW1, hW8, hWfit⟩ := log_n_max_spec n hn
+  unfold smallk_bin_uiui
+  simp only
+  rw [show min (log_n_max n) 8 = log_n_max n from Nat.min_eq_left hW8]
+  have hnm1 : 1 ≤ min (log_n_max n) k := by simp only [Nat.le_min]; omega
+  have hnmW : min (log_n_max n) k ≤ log_n_max n := Nat.min_le_left _ _
+  have hnmk : min (log_n_max n) k ≤ k := Nat.min_le_right _ _
+  have hi2 := smallk_i2_le (log_n_max n) (by omega) hW1 k (by omega) hk2
+  generalize hnm : min (log_n_max n) k = nm at hnm1 hnmW hnmk hi2 ⊢
+  have hfit : (n - k + 1 + nm - 1) ^ nm < B :=
+    lt_of_le_of_lt (Nat.pow_le_pow_left (by omega) nm) (pow_fit_le hWfit hnmW)
+  have hm := mulfunc_spec nm (n - k + 1) hnm1 (by omega) hfit
+  have hloop := smallkLoop_spec n k (log_n_max n) hkn hW8 hWfit k nm (k - nm) ((n - k + 1 + nm) % B) (mulfunc nm (n - k + 1))
+    (tcnt (nm - 1)) (by omega) hnmW (fun _ => hnm1) (fun h => by rw [Nat.mod_eq_of_lt (by omega)]; omega) (by omega)
+    (by rw [hm]; congr 1; omega)
+  rw [← smallkLoop_i2_indep k nm (k - nm) ((n - k + 1 + nm) % B) (mulfunc nm (n - k + 1))] at hi2
+  generalize smallkLoop k nm (k - nm) ((n - k + 1 + nm) % B) (mulfunc nm (n - k + 1)) (tcnt (nm - 1)) = res at hloop hi2 ⊢
+  obtain ⟨rp, i2⟩ := res
+  simp only at hloop hi2 ⊢
+  obtain ⟨t1, t2, t3⟩ := smallk_tables k (by omega) hk2
+  have hdesc : (n - k + 1).ascFactorial k = k ! * n.choose k := by
+    rw [← Nat.add_descFactorial_eq_ascFactorial, Nat.sub_add_cancel hkn, Nat.descFactorial_eq_factorial_mul_choose]
+  rw [hdesc, t1, mul_assoc] at hloop
+  exact henselRshDiv_exact rp _ (oddfacTab k) (facinvTab (k - 2)) _ (n.choose k) (lt_pow_limbCount rp) t2 t3
+    (shiftRight_of_mul_two_pow hloop hi2)
+
 end Mpir.Numth
